@@ -71,6 +71,7 @@ def generate(seed, tier):
     S = Streams(seed)
     rc, ro = S['config'], S['ops']
     ops = []
+    fav = rc.choice(NASTY + BENIGN) if rc.random() < 0.5 else None
     for _ in range(rc.randint(3, 10)):
         stmts = []
         kinds = []
@@ -78,6 +79,9 @@ def generate(seed, tier):
             fn = ro.choice(['match', 'match_groups', 'match_all'])
             nasty = ro.random() < 0.4
             pat = ro.choice(NASTY if nasty else BENIGN)
+            if fav is not None and ro.random() < 0.5:
+                pat = fav           # the same pattern text again and again (whatever is remembered per pattern)
+                nasty = fav in NASTY
             if ro.random() < 0.1:
                 pat = '@PAT' if nasty else '@PATB'       # a pattern the host compiled and bound in names
             subj_kind = weighted(ro, [('short', 4), ('adversarial', 3 if nasty else 0.5), ('long', 1.5), ('huge', 0.4)])
